@@ -130,6 +130,9 @@ fn constraint_text(c: &Case) -> String {
         }
         "serial" => format!("({})({}{ext})", r(&c.ranges[0]), r(&c.ranges[1])),
         "union" => format!("({}{ext})", c.ranges.iter().map(r).collect::<Vec<_>>().join(" | ")),
+        // the second range is that of a referenced type, named as a contained subtype (`text` defines Pp)
+        "union-ref-last" => format!("({} | Pp{ext})", r(&c.ranges[0])),
+        "union-ref-first" => format!("(Pp | {}{ext})", r(&c.ranges[0])),
         _ => unreachable!(),
     }
 }
@@ -161,6 +164,12 @@ pub fn text(c: &Case) -> String {
         "default" => format!("S ::= SEQUENCE {{ f INTEGER {k} DEFAULT {} }}", c.x.unwrap()),
         "refdefault" => format!("A ::= INTEGER {k}\nS ::= SEQUENCE {{ f A DEFAULT {} }}", c.x.unwrap()),
         _ => unreachable!(),
+    };
+    let body = if c.form.starts_with("union-ref") {
+        let (l, h) = c.ranges[1];
+        format!("Pp ::= INTEGER ({}..{})\n{body}", show_end(l, true), show_end(h, false))
+    } else {
+        body
     };
     module("M", "AUTOMATIC", false, &body)
 }
@@ -317,6 +326,11 @@ impl Prop for C06 {
                         // union: disjoint-or-not, any order
                         if a != b2 {
                             out.push(Case { ranges: vec![*a, *b2], form: "union".into(), ext, ctx: ctx.to_string(), x: needs_x.then_some(x) });
+                            if !ext && (b2.0.is_some() || b2.1.is_some()) {
+                                for form in ["union-ref-last", "union-ref-first"] {
+                                    out.push(Case { ranges: vec![*a, *b2], form: form.into(), ext, ctx: ctx.to_string(), x: needs_x.then_some(x) });
+                                }
+                            }
                         }
                     }
                 }
